@@ -146,8 +146,10 @@ func (e *Emitting) Emit(item *OutputChannelItem) {
 	e.Stream.SetAsEmittable()
 
 	item.Stream = e.Stream.GetPcapId()
+	verifAwaitLock(&e.indexLock, "emit.lock")
 	e.indexLock.Lock()
 	item.Index = e.Stream.GetIndex()
+	verifYield("emit.index")
 	e.Stream.IncrementItemCount()
 	e.indexLock.Unlock()
 	e.OutputChannel <- item
